@@ -4,6 +4,7 @@ import RR.Proof.Hand
 import RR.Proof.HdlcTable
 import RR.Proof.SyncWork
 import RR.Model.Blocks
+import RR.Proof.Gated
 
 /-!
 # C15 — input content can never crash a block, decoder or parser
@@ -116,5 +117,11 @@ theorem c15_midpoint_index (n : Nat) (h : 0 < n) : n / 2 < n := by omega
 
 /-- The recorded finding: integer addition with overflow checks panics (model: `none`). -/
 theorem c15_int_overflow_panics : (addConstInt 8 250).f () [10] [] = none := by decide
+
+/-- ZeroCrossing's `work()` has no reachable panic: for every state (any clock, any counter), any sample
+values (NaN, infinities are just encoded samples), any windows. -/
+theorem c15_zerocrossing_no_panic {α : Type} (o : ZOps α) (sps : α) (nout : Nat) (st : ZcSt α) (v : View) :
+    (gatedWork (zcGated o sps nout) st v).2.verdict ≠ .panic :=
+  gatedWork_total (zcGated o sps nout) (by intro st s; simp [zcGated]) st v
 
 end RR.Props.C15
